@@ -516,14 +516,15 @@ Section XOps.
     o <- xlift TReal (rollback rn ns (flags_of (fb fl "DryRun") fl)) ;;
     XRet (XO o).
 
-  (* ---------------- uninstall.go:59-76 ---------------- *)
+  (* ---------------- uninstall.go:59-88 ---------------- *)
   Definition x_uninstall (fl : xflags) : xprog xoutcome :=
     reach <- xperform XReach ;;
     if negb reach then XRet xerr else
     gw <- xperform (XGetWaiter TReal) ;;
     if negb gw then XRet xerr else
     o <- xlift TReal (uninstall (flags_of (fb fl "DryRun") fl)) ;;
-    XRet (XO o).
+    (* :82-88 a real run with IgnoreNotFound answers "no such release" with success *)
+    XRet (XO (if fb fl "IgnoreNotFound" && negb (fb fl "DryRun") && outcome_eqb o (OErr ENotFoundRel) then OOk else o)).
 
   (* ---------------- helm template: pkg/cmd/template.go:87-96, install.go:306 ---------------- *)
   Definition dry_opt_allowed (s : string) : bool :=
